@@ -9,5 +9,7 @@ export PYTHONPATH=/repo
 /venv/bin/python extract/gen_lean.py build/impl.json build/spec.json
 if [ -f extract/shapes.py ]; then /venv/bin/python extract/shapes.py /repo build/shapes.json lean/MxV/Gen/Shapes.lean; fi
 cd lean
+lake build mxdriver
+/venv/bin/python ../extract/gen_witnesses.py ../build/strs.json ../known_findings.json .lake/build/bin/mxdriver MxV/Gen/Witnesses.lean
 lake build MxV mxdriver $(ls MxV/Props/*.lean MxV/Tables/D_*.lean MxV/Model/*Theory.lean | sed 's#/#.#g; s#\.lean$##')
 echo "setup ok"
